@@ -106,6 +106,12 @@ def cases(rng, tier):
              "n": rng.randint(8, 22 if tier == "quick" else 40)} for _ in range(n)]
     out += [{"t": "hist", "oidc": rng.random() < 0.6, "jwt": False, "usage": "exchange", "gen_seed": rng.getrandbits(48),
              "n": rng.randint(10, 24 if tier == "quick" else 40)} for _ in range(n // 2)]
+    # deny_unknown_scopes: as the provider's preference, or as one client's own setting (client_2: a short allowed list; client_3: the
+    # provider's default list; client_4: an empty list) — a request naming anything outside is refused as a whole
+    for deny in ("all", "client_2", "client_3", "client_1", "client_4"):
+        for _ in range({"quick": 2, "thorough": 20, "search": 12}[tier]):
+            out.append({"t": "hist", "oidc": rng.random() < 0.6, "jwt": rng.random() < 0.3, "deny": deny, "gen_seed": rng.getrandbits(48),
+                        "n": rng.randint(8, 18 if tier == "quick" else 36)})
     # client-credentials and password grants (OAuth2 token endpoint): the client's configured scopes, whatever the request says
     for cl in G2_CLIENTS:
         for gt in ("client_credentials", "password"):
@@ -188,7 +194,8 @@ def _ops_for(c):
     if c["t"] == "xref":
         return _xref_ops(c)
     ops, _ = prov.gen_adaptive(random.Random(c["gen_seed"]), c["n"], oidc=c["oidc"], jwt=c["jwt"], usage=c.get("usage"),
-                               weights=XW if c.get("usage") == "exchange" else W)
+                               weights=XW if c.get("usage") == "exchange" else W,
+                               runner=prov.Runner(c["oidc"], c["jwt"], usage=c.get("usage"), deny=c["deny"]) if c.get("deny") else None)
     return ops
 
 
@@ -206,7 +213,7 @@ def impl(c):
     if c["t"] == "grant2":
         return _grant2_impl(c)
     ops = _ops_for(c)
-    R = prov.Runner(c["oidc"], c["jwt"], usage=c.get("usage"))
+    R = prov.Runner(c["oidc"], c["jwt"], usage=c.get("usage"), deny=c.get("deny"))
     steps = []
     for o in ops:
         before = {t[0]: t[7] for t in R.projection()["toks"]} if o[0] == "exchange" else None
@@ -237,7 +244,7 @@ def model_lines(c, obs):
     if c["t"] == "grant2":
         a = G2_CLIENTS[c["client"]]
         return ["prov\tccscope\t" + ("none" if a is None else "some:" + enc_list(a))]
-    return [prov.cfg_line(c["oidc"], c["jwt"], c.get("usage"))] + [prov.model_line(o) for o in obs["ops"]]
+    return [prov.cfg_line(c["oidc"], c["jwt"], c.get("usage"), c.get("deny"))] + [prov.model_line(o) for o in obs["ops"]]
 
 
 def compare(c, obs, outs):
@@ -269,6 +276,8 @@ def oracle(c, obs):
         if o[0] == "authorize" and r[0] == "code" and r[1] in toks:
             al = prov.ALLOWED[o[2]] if prov.ALLOWED[o[2]] is not None else prov.DEFAULT_ALLOWED
             authorised[toks[r[1]][2]] = set(o[3]) & set(al)
+            if c.get("deny") in ("all", o[2]) and not set(o[3]) <= set(al):
+                v.append({"cls": "unknown-scope-not-denied", "step": i, "client": o[2], "extra": sorted(set(o[3]) - set(al)), "setting": "provider" if c["deny"] == "all" else "client"})
         for h, t in toks.items():
             if t[2] in authorised and not set(t[7]) <= authorised[t[2]]:
                 v.append({"cls": "scope-escalation", "step": i, "op": o[0], "token_class": t[1], "extra": sorted(set(t[7]) - authorised[t[2]])})
@@ -309,7 +318,7 @@ def known_key(c, v, known):
 def classify(c, obs):
     if c["t"] == "grant2":
         return f"grant2:{c['grant']}:{c['client']}:{obs['r']}"
-    return ("oidc" if c["oidc"] else "oauth2") + ":" + ("jwt" if c["jwt"] else "opaque")
+    return ("oidc" if c["oidc"] else "oauth2") + ":" + ("jwt" if c["jwt"] else "opaque") + (":deny-" + c["deny"] if c.get("deny") else "")
 
 
 def nontrivial(c, obs):
